@@ -52,7 +52,8 @@ type ProcResult struct {
 func baseEnv(extra []string) []string {
 	var env []string
 	for _, kv := range os.Environ() {
-		if strings.HasPrefix(kv, "GOGREEMENT_") || strings.HasPrefix(kv, "GOFLAGS=") || strings.HasPrefix(kv, "GOMAXPROCS=") {
+		if strings.HasPrefix(kv, "GOGREEMENT_") || strings.HasPrefix(kv, "GOFLAGS=") || strings.HasPrefix(kv, "GOMAXPROCS=") ||
+			strings.HasPrefix(kv, "GOROOT=") || strings.HasPrefix(kv, "GOTOOLDIR=") || strings.HasPrefix(kv, "GOTOOLCHAIN=") {
 			continue
 		}
 		env = append(env, kv)
